@@ -305,6 +305,14 @@ class Harness:
             c.__module__ = None
             c.__qualname__ = "list.append"
             return c
+        if kind == "sync-prologue":
+            # a coroutine function behind an ordinary synchronous decorator: the decorator's code runs
+            # when the payload is called - and is payload code like the rest
+            def prologue(*args, **kwargs):
+                self.ev("payload-called", pid, ctx=self.context())
+                return fn(*args, **kwargs)
+
+            return prologue
         if kind == "lambda":
             # a plain callable that hands back whatever the payload function returns: for the
             # coroutine flavours that is a coroutine made by a function which is not itself async
@@ -321,6 +329,15 @@ class Harness:
 
             sync_payload.__qualname__ = sync_payload.__name__ = "payload_%s" % pid
             return sync_payload
+        if spec.get("at_call"):
+            # a coroutine payload that fails when it is *called*, before any coroutine exists: a factory
+            # function that raises, a coroutine function handed the wrong number of arguments
+            def failing_factory(*args, **kwargs):
+                self._start_event(pid, args, kwargs, "background")
+                self.sync_step(pid, spec["steps"][-1])
+
+            failing_factory.__qualname__ = failing_factory.__name__ = "payload_%s" % pid
+            return failing_factory
         if fl == "asyncio":
 
             async def aio_payload(*args, **kwargs):
@@ -599,6 +616,9 @@ class Harness:
         finally:
             for _ in range(spec.get("cleanup_sync", 0)):
                 self.ev("cleanup-step", pid)
+            if spec.get("cleanup_adopt") and sys.exc_info()[0] is not GeneratorExit:
+                # a supervised worker: whenever it goes down it hands a successor to the runtime
+                self.do_adopt(spec["cleanup_adopt"], by=pid)
             length = spec.get("cleanup_async", 0)
             if length and fl == "trio" and sys.exc_info()[0] is not GeneratorExit:
                 with trio.CancelScope(shield=True):
@@ -606,6 +626,10 @@ class Harness:
                     self.ev("cleanup-async-done", pid)
             self.ev("finished", pid)
             self._seg_leave(fl, pid)
+            if spec.get("cleanup_raise") and sys.exc_info()[0] is not None and issubclass(sys.exc_info()[0], cancel_type):
+                # clean-up code that fails while the payload is being cancelled
+                self.ev("cleanup-raised", pid, exc=spec["cleanup_raise"])
+                raise make_exception(spec["cleanup_raise"], pid)
         return None
 
     # -- operations usable from drivers and payloads ------------------------
